@@ -350,6 +350,10 @@ def tree_map(I, f, tree, *rest, is_leaf=None):
         ocs = []
         for o in others:
             och = tree_children(I, o)
+            if isinstance(t, Obj) and isinstance(o, Obj) and t.cls != o.cls:
+                # jax: "Custom node type mismatch" - the node TYPE is part of the tree structure (e.g. the change tags
+                # _NoChange / _UnknownChange of two Diff leaves)
+                raise PyRaise("ValueError", (f"Custom node type mismatch: expected {t.cls.name}, value {o.cls.name}",))
             if och is None:
                 if isinstance(o, UVal):
                     raise Unsupported("tree_map: opaque second tree against structured first tree")
